@@ -42,26 +42,30 @@ def mc(ctx, failed, module, cfg, name, **kw):
 
 
 def close(ctx, failed):
+    if ctx.drift and not ctx.violations:
+        ctx.note("STEP-MODEL DRIFT on %d observed cases although no property clause failed: the code no longer "
+                 "follows the algorithm model, so the exhaustive result of M does not transfer - look at the DRIFT "
+                 "lines" % len(ctx.drift))
     if failed and not ctx.violations:
         raise core.MachineryError("the algorithm model violates its invariants (%s) but no observation of the real "
                                   "code violates the property: the model does not describe the code" % "; ".join(failed))
 
 
 def mc_configs(tier):
-    # name, H, W, alphabet (NANV = masked), connectivity
+    # name, H, W, alphabet (NANV = masked), connectivity   (quick: <= 500 CPU-s for the whole check)
     q = [
-        ("3x3_b_c4", 3, 3, [0, 1], 4),
         ("3x3_b_c8", 3, 3, [0, 1], 8),
         ("3x4_b_c4", 3, 4, [0, 1], 4),          # smallest scope on which the lookup-chain rewrite matters
         ("2x3_m_c8", 2, 3, [0, 1, NANV], 8),
-        ("3x2_m_c4", 3, 2, [0, 1, NANV], 4),
-        ("2x3_t_c4", 2, 3, [0, 1, 2], 4),
-        ("2x2_tm_c8", 2, 2, [0, 1, 2, NANV], 8),
         ("1x5_m_c4", 1, 5, [0, 1, NANV], 4),
         ("5x1_m_c8", 5, 1, [0, 1, NANV], 8),
         ("1x1_m_c4", 1, 1, [0, NANV], 4),
     ]
     t = q + [
+        ("3x3_b_c4", 3, 3, [0, 1], 4),
+        ("3x2_m_c4", 3, 2, [0, 1, NANV], 4),
+        ("2x3_t_c4", 2, 3, [0, 1, 2], 4),
+        ("2x2_tm_c8", 2, 2, [0, 1, 2, NANV], 8),
         ("4x4_b_c4", 4, 4, [0, 1], 4),
         ("4x4_b_c8", 4, 4, [0, 1], 8),
         ("3x3_t_c4", 3, 3, [0, 1, 2], 4),
@@ -166,6 +170,23 @@ def random_jobs(rng, n, maxside, big, offset=0):
     return jobs
 
 
+def family_jobs(rng, tier):
+    """the targeted families of C16 (small shapes at every position, late-meeting multi-arm hooks, combs, thin
+    trees) as polygonize inputs: pinches, U-shaped multi-level merges, holes touching the border; int64, no mask
+    (a signature that is compiled anyway)"""
+    src = shapes.placement_jobs(rng, [(4, 4), (5, 5)] if tier == "quick" else [(4, 4), (4, 6), (5, 5), (6, 5), (6, 6)])
+    src = [j for j in src if j["n"] == 8 and not j["tag"].endswith("checker")]
+    hooks = [j for j in shapes.hook_jobs() if j["n"] == 8]
+    src += hooks[::4] if tier == "quick" else hooks
+    src += [j for j in shapes.multiarm_jobs(rng, 400 if tier == "quick" else 6000) if j["n"] == 8]
+    jobs = []
+    for i, j in enumerate(src):
+        jobs.append({"H": j["H"], "W": j["W"], "conn": 4 if i % 2 else 8, "raw": j["vals"], "vscale": 1,
+                     "dtype": "int64", "mask": None, "tr": None, "tden": 1, "regs": True, "idx": -1, "base": [],
+                     "maskenum": 0, "steps": 1, "tag": j["tag"]})
+    return jobs
+
+
 def merge_jobs(rng, tier):
     jobs = []
     M, K = (5, 3) if tier == "quick" else (6, 4)
@@ -248,21 +269,27 @@ def run(ctx):
     failed = []
     for (name, H, W, base, conn) in cfgs:
         mc(ctx, failed, "Polygonize", dict(spec="Spec", invariants=INV, constants=dict(
-            H=H, W=W, VALS=set(base), CONN=conn, MUT="none")), name, coverage=(name == "3x3_b_c8"), timeout=4 * 3600)
-    for mut, H, W, conn, inv in (("nochain", 3, 4, 4, "RegionsAreComponents"),
-                                 ("nose", 3, 3, 8, "RegionsAreComponents"),
-                                 ("straightfirst", 3, 3, 4, "LosslessHolds"),
-                                 ("novisit2", 3, 3, 4, "LosslessHolds")):
+            H=H, W=W, VALS=set(base), CONN=conn, MUT="none")), name, coverage=(name == "3x3_b_c8"), timeout=4 * 3600,
+           workers=(4 if H * W <= 9 else 8 if H * W <= 12 else 16))   # small scopes: extra TLC workers only burn CPU
+    twins = [("nose", 3, 3, 8, "RegionsAreComponents"), ("straightfirst", 3, 3, 4, "LosslessHolds"),
+             ("novisit2", 3, 3, 4, "LosslessHolds")]
+    if ctx.tier == "thorough":
+        # 3x4 is the smallest grid that needs the chain rewrite (67k states); in quick the rewrite's twin is the
+        # one of PolygonizeMerge below
+        twins.append(("nochain", 3, 4, 4, "RegionsAreComponents"))
+    for mut, H, W, conn, inv in twins:
         ctx.model_check("Polygonize", dict(spec="Spec", invariants=[inv, "FollowTerminates", "PointsFitAllocation"],
                                            constants=dict(
-            H=H, W=W, VALS={0, 1}, CONN=conn, MUT=mut)), "neg_" + mut, expect="violation")
+            H=H, W=W, VALS={0, 1}, CONN=conn, MUT=mut)), "neg_" + mut, expect="violation",
+            workers=(4 if H * W <= 9 else 16))
     mk = ctx.pick((5, 4), (6, 5))
     mc(ctx, failed, "PolygonizeMerge", dict(spec="Spec", invariants=["LookupDecreasing", "ForestIsClosure",
                                                                       "RootIsMinimum"],
-                                            constants=dict(M=mk[0], K=mk[1], MUT="none")), "merge_forest")
+                                            constants=dict(M=mk[0], K=mk[1], MUT="none")), "merge_forest",
+       workers=ctx.pick(4, 16))
     ctx.model_check("PolygonizeMerge", dict(spec="Spec", invariants=["ForestIsClosure"],
                                             constants=dict(M=4, K=3, MUT="nochain")), "neg_merge_nochain",
-                    expect="violation")
+                    expect="violation", workers=2)
     ctx.exhaustive = True
 
     # ---- one round of worker processes for everything that runs the real code
@@ -270,8 +297,12 @@ def run(ctx):
     ej = []
     for sc in replay_scopes(ctx.tier):
         ej += enum_jobs(sc)
-    tj = random_jobs(rng, ctx.pick(400, 4000), 8, ctx.pick(16, 120), offset=len(mj) + len(ej))
-    allcases = core.run_jobs("polygonize_worker", mj + ej + tj)
+    fj = family_jobs(rng, ctx.tier)
+    ej_n = len(ej)
+    tj = random_jobs(rng, ctx.pick(400, 4000), 8, ctx.pick(16, 120), offset=len(mj) + len(ej) + len(fj))
+    tj = fj + tj
+    # quick: 4 processes (every process JIT-compiles each signature it meets: ~4 CPU-s apiece)
+    allcases = core.run_jobs("polygonize_worker", mj + ej + tj, nproc=ctx.pick(4, 16))
     mcases = allcases[:len(mj)]
     ecases = allcases[len(mj):len(mj) + len(ej)]
     tcases = allcases[len(mj) + len(ej):]
@@ -282,7 +313,7 @@ def run(ctx):
             ctx.report_drift("_merge_regions raised on %s: %s" % (c["seq"], c["error"]))
     mgood = [c for c in mcases if "error" not in c and not c.get("skipped")]
     v = ctx.judge("Polygonize_MergeJudge", [{k: x for k, x in c.items() if k != "tag"} for c in mgood],
-                  name="merge_direct_drive", parallel=4, count_traces=False)
+                  name="merge_direct_drive", parallel=ctx.pick(1, 4), count_traces=False)
     for i, c in enumerate(mgood):
         if v.get(i) != "ok":
             ctx.report_drift("_merge_regions direct drive: %s after %s -> %s" % (v.get(i), c["seq"], c["lookup"]))
@@ -290,17 +321,18 @@ def run(ctx):
         if dr and dr.startswith("drift"):
             ctx.report_drift("_merge_regions differs from MergeRegions: %s -> %s" % (c["seq"], c["lookup"]))
     ctx.extra["merge_sequences_driven"] = len(mcases)
+    ctx.extra["targeted_family_cases"] = len(fj)
     ctx.judge_extra.clear()
 
     # ---- R: the complete enumerated scope through the real polygonize()
-    good = judge_and_handle(ctx, ecases, "replay_all_rasters", "R", parallel=8)
+    good = judge_and_handle(ctx, ecases, "replay_all_rasters", "R", parallel=ctx.pick(2, 8))
     replayed = len(ecases)
     for c in good[100:101] + good[-50:-49]:
         ctx.sample({"kind": "replay", "conn": c["conn"], "raw": c["raw"], "mask": c["mask"], "polys": c["polys"]})
     del good, ecases, allcases
 
     # ---- T: seeded larger rasters, dtypes, masks, transforms
-    good = judge_and_handle(ctx, tcases, "seeded_shapes", "T", parallel=8)
+    good = judge_and_handle(ctx, tcases, "seeded_shapes", "T", parallel=ctx.pick(2, 8))
     for c in good[20:22]:
         ctx.sample({"kind": "seeded", "gen": c["tag"], "conn": c["conn"], "dtype": c["dtype"], "raw": c["raw"],
                     "mask": c["mask"], "tr": c["tr"], "tden": c["tden"], "polys": c["polys"]})
